@@ -173,14 +173,14 @@ def gen_conv(tier, rnd, stats):
             alph = [0, 1, 2, min(C.tmax(ty), 9), min(C.tmax(ty), 200), min(C.tmax(ty), 70000)]
             s = Seqn.from_values(C.rand_seq(rnd, n, alph) if not huff else C.skewed_seq(rnd, n, sorted(set(alph)), 1.7))
             o = b.newt(start, ty, rnd.choice(["new", "from_vec", "collect"]), s)
-        elif start in ("QB", "QV"):
+        elif start in ("QB", "QV", "RSQ256", "RSQ512"):
             n = next(quad_lens)
             s = Seqn.from_values(C.rand_seq(rnd, n, [0, 1, 2, 3]))
             o = b.newq(start, "u8", "collect", s)
         else:
             n = next(bit_lens)
             s = Seqn.from_values(C.rand_seq(rnd, n, [0, 1]) if rnd.random() < 0.7 else C.rand_seq(rnd, n, [0]) + ([1] if n else []))
-            o = b.newb(start, "bools", s)
+            o = b.newb(start, "bools" if start in ("BV", "BVM") else "new", s)
         for m in ms:
             o = b.conv(o, m, keep=0)
             kind = final_kind.get(m, kind)
